@@ -440,15 +440,20 @@ func (p *Pool) Put(x any) {
 // ---------------------------------------------------------------------------------------------
 // map iteration order
 
+// DetMaps makes MapKeys return the canonical (sorted) order when no controller is attached: the
+// sequential checks set it so that every execution and every replay sees the same iteration order
+// (which orders are possible at all is what the schedule-controlled checks enumerate).
+var DetMaps bool
+
 // MapKeys returns the keys of m.  Under a controller: in canonical (sorted) order permuted by a
-// controller choice; otherwise in Go's native order.
+// controller choice; otherwise in Go's native order (canonical order if DetMaps is set).
 func MapKeys[K comparable, V any](m map[K]V) []K {
 	keys := make([]K, 0, len(m))
 	for k := range m {
 		keys = append(keys, k)
 	}
 	s := active
-	if s == nil || len(keys) < 2 {
+	if len(keys) < 2 || (s == nil && !DetMaps) {
 		return keys
 	}
 	strs := make([]string, len(keys))
@@ -463,6 +468,9 @@ func MapKeys[K comparable, V any](m map[K]V) []K {
 	sorted := make([]K, len(keys))
 	for i, j := range idx {
 		sorted[i] = keys[j]
+	}
+	if s == nil {
+		return sorted
 	}
 	n := len(sorted)
 	opts := 0
